@@ -1,6 +1,8 @@
 //! Property registry and replay plumbing.
 use crate::engine::{Ctx, Mode, Tier, Verdict};
 
+pub mod common;
+pub mod c01;
 pub mod c18;
 
 pub struct Prop {
@@ -11,6 +13,7 @@ pub struct Prop {
 
 pub fn all() -> Vec<Prop> {
     vec![
+        Prop { id: "C01", level: "exploration", run: c01::run },
         Prop { id: "C18", level: "exploration", run: c18::run },
     ]
 }
@@ -94,6 +97,30 @@ pub fn replay_known(prop: &Prop, _tier: Tier, _seed: u64) {
             Err(e) => eprintln!("[{}] note: cannot replay {}: {e}", prop.id, rp),
         }
     }
+}
+
+/// Regression tier: saved (shrunk) failing inputs of repaired findings are re-judged on every run;
+/// a failure here means the defect has returned. Returns the number of failing files.
+pub fn replay_regressions(prop: &Prop) -> (usize, usize) {
+    let root = std::path::PathBuf::from(std::env::var("ZV_ROOT").unwrap_or_else(|_| "/verif".into()));
+    let dir = root.join("regress").join(prop.id);
+    let mut files: Vec<_> = std::fs::read_dir(&dir).map(|rd| rd.flatten().map(|e| e.path()).filter(|p| p.extension().map(|x| x == "json").unwrap_or(false)).collect()).unwrap_or_default();
+    files.sort();
+    let mut bad = 0;
+    let n = files.len();
+    for f in files {
+        let p = f.display().to_string();
+        match judge_file(&p) {
+            Ok((Verdict::Fail(m), _)) => {
+                println!("VIOLATION property={} replay={}", prop.id, p);
+                println!("  message=regression input fails again: {}", m.replace('\n', " "));
+                bad += 1;
+            }
+            Ok(_) => {}
+            Err(e) => eprintln!("[{}] note: cannot replay regression file {p}: {e}", prop.id),
+        }
+    }
+    (n, bad)
 }
 
 pub fn selftest() -> i32 {
